@@ -51,9 +51,24 @@ Proof.
 Qed.
 
 (* closed on every path, whatever is raised (also for BaseException kinds) *)
-Lemma tcp_closed_always : forall tls p e1 e2, o_closed (tcp_client_task tls p e1 e2) = true.
+Lemma tcp_closed_always_main : forall tls p e1 e2, o_closed (tcp_client_task_main tls p e1 e2) = true.
 Proof.
-  intros. unfold tcp_client_task.
+  intros. unfold tcp_client_task_main.
+  repeat match goal with |- context [let '(_, _) := ?x in _] => destruct x end.
+  reflexivity.
+Qed.
+
+Lemma tcp_closed_always : forall tls p e1 e2,
+  o_closed (tcp_client_task tls p e1 e2) = true.
+Proof.
+  intros. unfold tcp_client_task. destruct p; try apply tcp_closed_always_main;
+    destruct receiver_next_protected; solve [apply tcp_closed_always_main | reflexivity].
+Qed.
+
+Lemma tcp_disc_iff_connected_main : forall tls p e1 e2,
+  o_disc_called (tcp_client_task_main tls p e1 e2) = pos_connected p.
+Proof.
+  intros. unfold tcp_client_task_main.
   repeat match goal with |- context [let '(_, _) := ?x in _] => destruct x end.
   reflexivity.
 Qed.
@@ -61,17 +76,23 @@ Qed.
 Lemma tcp_disc_iff_connected : forall tls p e1 e2,
   o_disc_called (tcp_client_task tls p e1 e2) = pos_connected p.
 Proof.
-  intros. unfold tcp_client_task.
+  intros. unfold tcp_client_task. destruct p; try apply tcp_disc_iff_connected_main;
+    destruct receiver_next_protected; solve [apply tcp_disc_iff_connected_main | reflexivity].
+Qed.
+
+Lemma tcp_hook4_iff_connected_main : forall tls p e1 e2,
+  existsb (Z.eqb 4) (o_hooks (tcp_client_task_main tls p e1 e2)) = pos_connected p.
+Proof.
+  intros. unfold tcp_client_task_main.
   repeat match goal with |- context [let '(_, _) := ?x in _] => destruct x end.
-  reflexivity.
+  destruct p; reflexivity.
 Qed.
 
 Lemma tcp_hook4_iff_connected : forall tls p e1 e2,
   existsb (Z.eqb 4) (o_hooks (tcp_client_task tls p e1 e2)) = pos_connected p.
 Proof.
-  intros. unfold tcp_client_task.
-  repeat match goal with |- context [let '(_, _) := ?x in _] => destruct x end.
-  destruct p; reflexivity.
+  intros. unfold tcp_client_task. destruct p; try apply tcp_hook4_iff_connected_main;
+    destruct receiver_next_protected; solve [apply tcp_hook4_iff_connected_main | reflexivity].
 Qed.
 
 (* faults raised by an exit callback registered after the suppressor (the TLS close handshake) *)
